@@ -136,9 +136,8 @@ Shape(raw) ==
   IN  IF n = 0 THEN Skip
       ELSE IF s[1] = "#" THEN Skip
       ELSE IF n >= 2 /\ s[1] = "<" /\ s[2] = "/" THEN
-             IF s[n] = ">" THEN Closer(LowerSeq(Core(Sub(s, 3, n - 1)) \o
-                                       (* leading white space of the type is kept: '</ a>' names ' a' *)
-                                       <<>>))
+             (* only trailing white space of the type is dropped: '</ a>' names ' a', which no header can open *)
+             IF s[n] = ">" THEN Closer(LowerSeq(RStrip(Sub(s, 3, n - 1))))
              ELSE Bad("malformed section end")
       ELSE IF s[1] = "<" THEN
              IF s[n] # ">" THEN Bad("malformed section start")
